@@ -354,6 +354,9 @@ class RulesOnOff(NativeCase):
                 if sfs is None:
                     continue
                 n += 1
+                wfv = speceval.wf_violation(sfs)
+                self.ob('specification well formed (producers, arities, commutative flags, acyclic)', wfv is None,
+                        inputs=dict(block=b, rules=nm, applied=sfs.get("rules")), info=wfv)
                 lins = speceval.linearizations(sfs, limit=20)
                 bad = None
                 for order in lins[:4]:
